@@ -126,6 +126,19 @@ func (env *Env) call(e *spec.Call) Value {
 		argc(3)
 		ev := env.nthEvent(e.Args[0], e.Args[1])
 		return env.eventArg(ev, e.Args[2])
+	case "ret":
+		// ret(f, k) / ret(f, k, j): result (j-th result) of the k-th call to f on this path
+		ev := env.nthEvent(e.Args[0], e.Args[1])
+		j := 0
+		if len(e.Args) == 3 {
+			if lit, ok := e.Args[2].(*spec.Lit); ok {
+				j, _ = strconv.Atoi(lit.Val)
+			}
+		}
+		if j >= len(ev.Rets) {
+			specErr("ret(): the result of that call is not known")
+		}
+		return ev.Rets[j]
 	case "before":
 		// before(f, i, g, j): the i-th call to f precedes the j-th call to g
 		argc(4)
@@ -200,10 +213,18 @@ func (env *Env) call(e *spec.Call) Value {
 			rs, rt = smt.Bool, tBool
 		} else if strings.HasPrefix(name, "uf_u8_") {
 			rs, rt = smt.BV(8), types.Typ[types.Uint8]
+		} else if strings.HasPrefix(name, "uf_i_") {
+			rs, rt = smt.Iface, types.NewInterfaceType(nil, nil)
+		} else if strings.HasPrefix(name, "uf_r_") {
+			rs, rt = smt.Ref, types.Typ[types.UnsafePointer]
 		} else if strings.HasPrefix(name, "uf_s_") {
 			rs, rt = smt.Str, types.Typ[types.String]
 		}
-		f := en.ctx.Fun(name, sorts, rs)
+		sig := name
+		for _, so := range sorts {
+			sig += "/" + string(so)
+		}
+		f := en.ctx.Fun(sig, sorts, rs)
 		return scalar(rt, smt.App(rs, f, args...))
 	}
 	// package-level function of the module, evaluated purely
@@ -250,6 +271,9 @@ func (env *Env) conversion(t types.Type, v Value) Value {
 	}
 	if types.IsInterface(t) && !types.IsInterface(v.T) {
 		return scalar(t, env.x.e.box(v))
+	}
+	if types.IsInterface(t) && types.IsInterface(v.T) {
+		return scalar(t, v.one())
 	}
 	return env.x.convert(env.st, v, t)
 }
